@@ -300,16 +300,63 @@ def pymod(a, b):
     return a - b * floordiv(a, b)
 
 
+# ---- bit-structured integers: value == sum_k ite(b_k, 2**k, 0) with the b_k known (flag words).  Keeps the VCs
+# of flag-driven code Boolean + linear instead of div/mod chains (DESIGN spike S6).
+BITS = {}
+
+
+def bits_of(x):
+    """{k: Bool term} if x (Int term or python int >= 0) is bit-structured, else None."""
+    if isinstance(x, int) and not isinstance(x, bool):
+        return {k: z3.BoolVal(True) for k in range(x.bit_length()) if x >> k & 1} if x >= 0 else None
+    if z3.is_int_value(x):
+        return bits_of(x.as_long())
+    return BITS.get(x.get_id())
+
+
+def mk_bits(d):
+    d = {k: z3.simplify(b) for k, b in d.items()}
+    d = {k: b for k, b in d.items() if not z3.is_false(b)}
+    if all(z3.is_true(b) for b in d.values()):
+        return z3.IntVal(sum(2 ** k for k in d))
+    terms = [z3.If(b, z3.IntVal(2 ** k), z3.IntVal(0)) if not z3.is_true(b) else z3.IntVal(2 ** k) for k, b in sorted(d.items())]
+    t = z3.Sum(terms) if len(terms) > 1 else terms[0]
+    BITS[t.get_id()] = d
+    _KEEP.append(t)
+    return t
+
+
+_KEEP = []  # keep registered terms alive so ids are not recycled
+
+
 def bit(x, k):
+    d = bits_of(x)
+    if d is not None:
+        b = d.get(k)
+        return z3.IntVal(0) if b is None else (z3.IntVal(1) if z3.is_true(b) else z3.If(b, z3.IntVal(1), z3.IntVal(0)))
     return (x / z3.IntVal(2 ** k)) % 2
 
 
 def band(x, mask: int):
     """x & mask for a non-negative concrete mask, any integer x (infinite two's complement)."""
+    d = bits_of(x)
+    if d is not None:
+        return mk_bits({k: b for k, b in d.items() if mask >> k & 1})
     terms = [bit(x, k) * (2 ** k) for k in range(mask.bit_length()) if mask >> k & 1]
     if not terms:
         return z3.IntVal(0)
     return z3.Sum(terms) if len(terms) > 1 else terms[0]
+
+
+def bor(x, mask: int):
+    d = bits_of(x)
+    if d is not None:
+        nd = dict(d)
+        for k in range(mask.bit_length()):
+            if mask >> k & 1:
+                nd[k] = z3.BoolVal(True)
+        return mk_bits(nd)
+    return x + mask - band(x, mask)
 
 
 CANON = z3.Union(z3.Re("0"), z3.Concat(z3.Range("1", "9"), z3.Star(z3.Range("0", "9"))))
@@ -365,6 +412,7 @@ class Executor:
         self.path_log = []
         self.no_merge = set()
         self.notes = set()  # e.g. float ops used
+        self.band_terms = {}
 
     # ---- path management
     def reset_path(self, script):
@@ -609,6 +657,9 @@ class Executor:
             # list/bytearray += iterable : in-place extend
             cur.items.extend(self.iter_concrete(rhs))
             return
+        if isinstance(cur, _Sliceable) and isinstance(s.op, ast.Add) and hasattr(cur, "append"):
+            cur.append(self, rhs, s.lineno)
+            return
         v = self.binop(s.op, cur, rhs, s.lineno)
         self.assign(s.target, v, env)
 
@@ -687,7 +738,11 @@ class Executor:
             self.in_merge -= 1
         # facts assumed inside the branches are kept guarded
         self.pc = pc0 + [z3.Implies(t, p) for p in pc1] + [z3.Implies(z3.Not(t), p) for p in pc2]
-        merge_into(self, t, st1, self.merge_roots(env), env)
+        try:
+            merge_into(self, t, st1, self.merge_roots(env), env)
+        except Unsupported:
+            self.no_merge.add(id(s))
+            raise Restart()
         return True
 
     def merge_roots(self, env):
@@ -1195,6 +1250,10 @@ class Executor:
         if is_intlike(a) and is_intlike(b):
             x, y = as_int_term(a), as_int_term(b)
             return {ast.Lt: x < y, ast.LtE: x <= y, ast.Gt: x > y, ast.GtE: x >= y}[type(op)]
+        if isinstance(a, (SFloat, float)) or isinstance(b, (SFloat, float)):
+            hook = self.ctx.float_compare
+            if hook is not None:
+                return hook(self, op, a, b, line)
         if isinstance(a, (str, SStr)) and isinstance(b, (str, SStr)):
             x, y = lift(a), lift(b)
             # code-point lexicographic order == z3 str.< / str.<=
@@ -1326,6 +1385,12 @@ class Executor:
             return PList(list(a) + b.items, b.kind)
         if isinstance(a, (SFloat, float)) or isinstance(b, (SFloat, float)):
             return self.float_binop(op, a, b, line)
+        if isinstance(a, PObj) or isinstance(b, PObj):
+            hook = self.ctx.obj_binop
+            if hook is not None:
+                r = hook(self, op, a, b, line)
+                if r is not NotImplemented:
+                    return r
         if is_intlike(a) and is_intlike(b):
             x, y = as_int_term(a), as_int_term(b)
             if isinstance(op, ast.Add):
@@ -1361,15 +1426,19 @@ class Executor:
                 raise Unsupported("symbolic exponent")
             if isinstance(op, ast.BitAnd):
                 if isinstance(b, int) and b >= 0:
-                    return wrap(band(x, int(b)))
+                    r = band(x, int(b))
+                    self.band_terms[r.get_id()] = (x, int(b))
+                    return wrap(r)
                 if isinstance(a, int) and a >= 0:
-                    return wrap(band(y, int(a)))
+                    r = band(y, int(a))
+                    self.band_terms[r.get_id()] = (y, int(a))
+                    return wrap(r)
                 raise Unsupported("symbolic & symbolic")
             if isinstance(op, ast.BitOr):
                 if isinstance(b, int) and b >= 0:
-                    return wrap(x + b - band(x, int(b)))
+                    return wrap(bor(x, int(b)))
                 if isinstance(a, int) and a >= 0:
-                    return wrap(y + a - band(y, int(a)))
+                    return wrap(bor(y, int(a)))
                 raise Unsupported("symbolic | symbolic")
             if isinstance(op, ast.LShift) and isinstance(b, int):
                 return wrap(x * (2 ** b))
@@ -1378,6 +1447,9 @@ class Executor:
         raise Unsupported(f"binop {type(op).__name__} on {type(a).__name__},{type(b).__name__} at L{line}")
 
     def float_binop(self, op, a, b, line):
+        hook = self.ctx.float_binop
+        if hook is not None:
+            return hook(self, op, a, b, line)
         raise Unsupported(f"float arithmetic at L{line}")
 
     def e_Attribute(self, e, env):
@@ -1396,7 +1468,8 @@ class Executor:
             prop = self.ctx.find_property(obj.cls, name)
             if prop is not None:
                 return self.call_value(BoundMethod(obj, name), [], {}, line)
-            if self.ctx.find_method(obj.cls, name) is not None or self.ctx.method_contract(obj.cls, name) is not None:
+            if self.ctx.find_method(obj.cls, name) is not None or self.ctx.method_contract(obj.cls, name) is not None \
+                    or (obj.cls, name) in getattr(self.ctx, "method_models", {}):
                 return BoundMethod(obj, name)
             cv = self.ctx.class_attr(obj.cls, name, self)
             if cv is not NotImplemented:
@@ -1414,6 +1487,8 @@ class Executor:
             return obj.attr(name, self)
         if isinstance(obj, VExc) and name == "args":
             return obj.args
+        if isinstance(obj, _Super):
+            return self.ctx.super_attr(self, obj, name, line)
         if obj is None:
             self.safety(False, "AttributeError", "receiver-not-None", line)
             raise PathEnd()
@@ -1464,6 +1539,14 @@ class Executor:
 
         return clamp(sl.lower, z3.IntVal(0)), clamp(sl.upper, n)
 
+    def raw_slice(self, sl, n, env):
+        """Unclamped slice bounds (for byte memories, whose accessors check the bounds themselves)."""
+        if sl.step is not None:
+            raise Unsupported("slice step")
+        lo = z3.IntVal(0) if sl.lower is None else as_int_term(self.eval(sl.lower, env))
+        hi = n if sl.upper is None else as_int_term(self.eval(sl.upper, env))
+        return z3.simplify(lo), z3.simplify(hi)
+
     def get_item(self, obj, sl, env, line=0):
         if isinstance(obj, SOpt):
             obj = self.unopt(obj, line, "subscripted")
@@ -1486,8 +1569,7 @@ class Executor:
                 lo, hi = self.slice_bounds(sl, obj.ln, env)
                 return self.slist_slice(obj, lo, hi)
             if isinstance(obj, _Sliceable):
-                n = obj.length(self)
-                lo, hi = self.slice_bounds(sl, n, env)
+                lo, hi = self.raw_slice(sl, obj.length(self), env)
                 return obj.slice(self, lo, hi, line)
             raise Unsupported(f"slice of {type(obj).__name__}")
         idx = self.eval(sl, env)
@@ -1558,6 +1640,10 @@ class Executor:
 
     def set_item(self, obj, sl, v, env, line=0):
         if isinstance(sl, ast.Slice):
+            if isinstance(obj, _Sliceable):
+                from . import bytemem
+                lo, hi = self.raw_slice(sl, obj.length(self), env)
+                return bytemem.set_slice(self, obj, lo, hi, v, line)
             raise Unsupported("slice assignment")
         idx = self.eval(sl, env)
         if isinstance(obj, PList):
@@ -1577,7 +1663,7 @@ class Executor:
                 raise Unsupported("symbolic key store")
             obj.d[idx] = v
             return
-        if isinstance(obj, _SDictLike):
+        if isinstance(obj, (_SDictLike, _Sliceable)):
             return obj.setitem(self, idx, v, line)
         raise Unsupported(f"item assignment on {type(obj).__name__} at L{line}")
 
@@ -1624,6 +1710,13 @@ class Executor:
         fname = ast.unparse(e.func)
         if fname in self.ctx.noop_calls:
             return None
+        if fname == "super" and not e.args:
+            scope = env
+            while scope is not None and "__class__" not in scope:
+                scope = scope.get("__closure__")
+            if scope is None:
+                raise Unsupported("super() outside an inlined method")
+            return _Super(scope["__self__"], scope["__class__"])
         if isinstance(e.func, ast.Attribute):
             recv = self.eval(e.func.value, env)
             f = self.get_attr(recv, e.func.attr, e.lineno)
@@ -1654,6 +1747,8 @@ class Executor:
             return self.ctx.construct(self, f.name, args, kwargs, line)
         if isinstance(f, _SpecCallable):
             return f.call(self, args, kwargs, line)
+        if isinstance(f, _BoundFunc):
+            return self.call_func(f.func, [f.obj] + list(args), kwargs, line)
         if isinstance(f, RePattern):
             raise Unsupported("calling a pattern")
         raise Unsupported(f"call of {type(f).__name__} at L{line}")
@@ -1663,6 +1758,9 @@ class Executor:
         qual = self.ctx.qual_of(f)
         c = self.ctx.contract_for_call(qual, self.contract)
         if c is not None:
+            if c.model is not None:
+                self.used_contracts.add(c.qual)
+                return c.model(self, args, kwargs, line)
             return self.apply_contract(c, f, args, kwargs, line)
         if not self.ctx.may_inline(qual, self.contract):
             raise Unsupported(f"call of {qual} at L{line}: no contract and not declared inline")
@@ -1700,6 +1798,9 @@ class Executor:
             env = self.bind_params(f.node, args, kwargs, line, f.closure)
             return self.eval(f.node.body, env)
         env = self.bind_params(f.node, args, kwargs, line, f.closure)
+        if f.cls and args:
+            env["__class__"] = f.cls
+            env["__self__"] = args[0]
         saved_fi = self.finfo
         if f.mod != self.finfo.mod:
             self.finfo = _ModShim(f.mod, saved_fi)
@@ -1761,7 +1862,7 @@ class Executor:
 
     def spec_bool(self, expr, env, hints=(), contract=None):
         v = self.spec_eval(expr, env, contract)
-        t = self.truth(v)
+        t = v if z3.is_expr(v) else self.truth(v)
         if isinstance(t, bool):
             t = z3.BoolVal(t)
         for h in hints or ():
@@ -1935,6 +2036,16 @@ class Executor:
 
 class _MergeAbort(Exception):
     pass
+
+
+class _Super:
+    def __init__(self, obj, cls):
+        self.obj, self.cls = obj, cls
+
+
+class _BoundFunc:
+    def __init__(self, func, obj):
+        self.func, self.obj = func, obj
 
 
 class _ModShim:
